@@ -153,14 +153,6 @@ pub proof fn lemma_ndigits_sum(b: int, a: int, c: int, n: nat)
     assert(b * t >= 2 * t) by (nonlinear_arith) requires b >= 2, t >= 1;
     lemma_ndigits_le(b, a + c, n + 1);
 }
-/// |v| < b^ndigits(v), also for v == 0
-pub proof fn lemma_ndigits_ub(b: int, v: int)
-    requires b >= 2
-    ensures iabs(v) < ipow(b, ndigits(b, v))
-{
-    broadcast use ax_ndigits;
-    lemma_ipow_pos(b, ndigits(b, v));
-}
 /// |s| < b^n ==> |s * b^k| < b^(n+k)
 pub proof fn lemma_shift_bound(b: int, s: int, n: nat, k: nat)
     requires b >= 2, iabs(s) < ipow(b, n)
